@@ -267,6 +267,21 @@ def semver_equality(ctx, rule):
                         ctx.ob(rule, "track-key-equality|%s" % f.id, False,
                                "a semver track key flows into `%s`: tracks must be compared by equality of their keys (0.2 is a prefix of 0.20)" % p.rsplit("::", 1)[1],
                                site="%s in %s" % (t.span, f.id))
+    # the key itself: the track of `0.y.z…` ends at the SECOND dot of the version, found by searching forward from the first
+    # one — a reverse search lands inside dotted build metadata / pre-release identifiers (`0.2.3+build.5`)
+    k = db.fns.get("wac_types::names::alternate_lookup_key")
+    if k is None:
+        ctx.lost(rule, "wac_types::names::alternate_lookup_key")
+    else:
+        ctx.touch(k)
+        rev = [t for t in k.calls() if "str" in (t.path or "") and (t.path or "").rsplit("::", 1)[-1] in ("rfind", "rsplit", "rsplit_once", "rsplitn", "rmatch_indices", "rsplit_terminator")
+               and len(t.args) > 1 and t.args[1].const_value() == ("char", ord("."))]
+        fwd = [t for t in k.calls() if "str" in (t.path or "") and (t.path or "").rsplit("::", 1)[-1] in ("find", "split", "split_once", "splitn", "match_indices")
+               and len(t.args) > 1 and t.args[1].const_value() == ("char", ord("."))]
+        ctx.ob(rule, "track-key-forward-dots", not rev and len(fwd) >= 1,
+               "the dots that delimit a track are found by forward searches (%d)" % len(fwd) if not rev and fwd else
+               "alternate_lookup_key locates a version dot with a reverse search (%s): versions with dotted build metadata or pre-release parts fall off their track"
+               % ", ".join(t.path.rsplit("::", 1)[-1] for t in rev) if rev else "no forward dot search found in alternate_lookup_key", site=k.span)
     f = db.fns.get("wac_types::names::are_semver_compatible")
     if f is None:
         ctx.lost(rule, "wac_types::names::are_semver_compatible")
